@@ -8,6 +8,7 @@
                                 through the pool — leave every member beneath the output directory
                                 with exactly the bytes given to `create`.
    The second extends CliCompose.extract_both_forms_agree (it is used, not repeated). *)
+From MLA Require Import Limit.
 From MLA Require Import Base Stream Blocks Writer Reader RoundTripBlocks RoundTripWriter RoundTripReader RoundTrip
   CompLayer EncLayer Format Ecies Archive ArchiveProofs LinearRoundTripDefs LinearProofs LinearRoundTrip
   Path PathProofs PathLinks PathBenign Tar TarProofs Cli CliProofs CliArchive CliCompose Pool PoolProofs CliExtract.
@@ -17,6 +18,7 @@ Open Scope N_scope.
 (* ================================================================== *)
 (** * 1. The walk with its delivered pieces is the walk of Reader.v *)
 Section DeliveredProofs.
+  Context {LIM : Limit}.
   Variable FNMAX : N.
   Variables TS TC TA TE : N.
   Variable S : Stream.
@@ -96,6 +98,7 @@ End DeliveredProofs.
 (** * 2. ANY archive bytes: confinement *)
 Section AnyBytes.
   Variables CHUNK TAG BLOCK LIMIT FNMAX : N.
+  Local Hint Extern 0 Limit => exact LIMIT : typeclass_instances.
   Variables TS TC TA TE : N.
   Variable dh : bytes -> bytes -> bytes.
   Variable kdf : bytes -> bytes.
@@ -170,6 +173,7 @@ End AnyBytes.
 (* ================================================================== *)
 (** * 3. The per-file loop on an archive made by `create` *)
 Section LoopSpec.
+  Context {LIM : Limit}.
   Variable FNMAX : N.
   Variables TS TC TA TE : N.
   Variable H : bytes -> bytes.
@@ -234,6 +238,7 @@ End LoopSpec.
 (** * 4. An archive written by `create`: both forms deliver the bytes given *)
 Section Benign.
   Variables CHUNK TAG CIPHERBUF BLOCK LIMIT FNMAX : N.
+  Local Hint Extern 0 Limit => exact LIMIT : typeclass_instances.
   Variables TS TC TA TE : N.
   Variable H : bytes -> bytes.
   Variable order : footer -> footer.
